@@ -378,6 +378,9 @@ func (c *mpCase) run(tmpdir string) {
 			if !u.Indep {
 				ind = "SHARED"
 			}
+			if u.NoEOF {
+				ind = "NOEOF"
+			}
 			rs = append(rs, fmt.Sprintf("%d:%d:%s:%s", i, pi, k, ind))
 		}
 		if len(rs) > 0 {
